@@ -288,9 +288,11 @@ def step (s : State) (op : List String) : List (State × String) :=
   let now := opTime op
   let op' := stripTime op
   (timerOutcomes s now).flatMap (fun (st : State × List CEv) =>
-    (core st.1 now op').map (fun (r : State × List CEv) =>
-      let s' := { r.1 with tprev := now }
-      (s', render (st.2 ++ r.2) s')))
+    (core st.1 now op').flatMap (fun (r : State × List CEv) =>
+      -- a timer armed by this very operation can already be due if the operation (or the harness) was slow
+      (timerOutcomes r.1 now).map (fun (r2 : State × List CEv) =>
+        let s' := { r2.1 with tprev := now }
+        (s', render (st.2 ++ r.2 ++ r2.2) s'))))
 
 end Core
 end Model
